@@ -113,6 +113,17 @@ def api_witness(slice_, timeout):
             bad += [(q, v) for r in rs for v in (r.resolution or {}).get('values', []) if not v.get('timex') and v.get('value') != 'not resolved']
         if bad:
             return {'state': 'counterexample', 'cex': {'w': kind}, 'detail': 'date range without a TIMEX: %r' % (bad,), 'queries': 1}
+    elif kind in ('F64', 'F65', 'F66'):
+        from recognizers_date_time import recognize_datetime
+        q, want = {'F64': ('十一到十二点', '(T11,T12,PT1H)'), 'F65': ('从4点20分10秒到4点20分30秒', '(T04:20:10,T04:20:30,PT0M20S)'), 'F66': ('从4点50分到4点10分', '(T04:50,T04:10,PT23H20M)')}[kind]
+        rs = recognize_datetime(q, 'zh-cn', reference=datetime(2016, 11, 7, 10, 30))
+        got = [v.get('timex') for r in rs for v in (r.resolution or {}).get('values', [])]
+        bad = got != [want]
+        if not bad and kind == 'F66':
+            v = rs[0].resolution['values'][0]
+            bad = (v['start'], v['end']) != ('04:50:00', '04:10:00')
+        if bad:
+            return {'state': 'counterexample', 'cex': {'w': kind}, 'detail': '%r -> %r, expected TIMEX %s' % (q, got, want), 'queries': 1}
     elif kind == 'F37-overlap':
         from recognizers_date_time import recognize_datetime
         sp = _spans(recognize_datetime('明天三天后', 'zh-cn', reference=datetime(2016, 11, 7)))
